@@ -189,45 +189,138 @@ func (m ImportsMatcher) Match(file *ast.File, d data.Data) (_ data.Data, ok bool
 	}), true
 }
 
-// matchAll reports every way in which the imports of the file satisfy the
-// imports of the patch. There is more than one when the file imports a path
-// under several names and the patch names that import with a metavariable:
-// each of the names is something the metavariable may stand for.
-func (m ImportsMatcher) matchAll(file *ast.File, d data.Data) []data.Data {
-	candidates := []data.Data{d}
-	matchedImports := make([]importKey, 0, len(m.Imports))
+// importChoices is what the imports of a file leave open about the imports of
+// a patch. There is something to choose when the file imports a path under
+// several names and the patch names that import with a metavariable: each of
+// the names is something the metavariable may stand for.
+type importChoices struct {
+	m ImportsMatcher
+
+	// For every import of the patch, the imports of the file it may stand
+	// for. Just one for an import that is not named by a metavariable: nothing
+	// is bound, the first import in the stated form is as good as any.
+	specs [][]*ast.ImportSpec
+
+	// For every metavariable that names imports of the patch, the names it
+	// may stand for, in the order in which the file imports them.
+	names map[string][]string
+}
+
+// importName is the name under which a metavariable matches an import of the
+// file: an unnamed import goes by the name of the metavariable.
+func (m ImportMatcher) importName(spec *ast.ImportSpec) string {
+	if spec.Name == nil {
+		return m.NameS
+	}
+	return spec.Name.Name
+}
+
+// choices matches the imports of the patch against those of the file as far
+// as that is possible without knowing what the code of the patch matches.
+func (m ImportsMatcher) choices(file *ast.File) (_ importChoices, ok bool) {
+	c := importChoices{m: m, names: make(map[string][]string)}
 	for _, im := range m.Imports {
-		var next []data.Data
-		for _, d := range candidates {
-			for _, spec := range file.Imports {
-				if goast.ImportPath(spec) != im.Path {
-					continue
-				}
-				newD, ok := im.matchSpec(spec, d)
-				if !ok {
-					continue
-				}
-				next = append(next, newD)
-				if !im.NameIsMetavar {
-					// Nothing is bound: the first import in
-					// the stated form is as good as any.
+		var specs []*ast.ImportSpec
+		for _, spec := range file.Imports {
+			if goast.ImportPath(spec) != im.Path {
+				continue
+			}
+			if im.NameIsMetavar {
+				specs = append(specs, spec)
+				continue
+			}
+			if _, ok := im.matchSpec(spec, data.New()); ok {
+				specs = append(specs, spec)
+				break
+			}
+		}
+		if len(specs) == 0 {
+			return c, false
+		}
+		c.specs = append(c.specs, specs)
+		if !im.NameIsMetavar {
+			continue
+		}
+
+		// A metavariable that names several imports stands for a
+		// name that all of them have.
+		names, seen := c.names[im.NameS]
+		var common []string
+		for _, spec := range specs {
+			name := im.importName(spec)
+			if !seen || containsString(names, name) {
+				common = append(common, name)
+			}
+		}
+		if len(common) == 0 {
+			return c, false
+		}
+		c.names[im.NameS] = common
+	}
+	return c, true
+}
+
+// open reports whether there is a metavariable that may stand for more than
+// one name.
+func (c importChoices) open() bool {
+	for _, names := range c.names {
+		if len(names) > 1 {
+			return true
+		}
+	}
+	return false
+}
+
+// constrain lets the metavariables that name imports stand for nothing but
+// the names found for them, without binding them yet.
+func (c importChoices) constrain(d data.Data) data.Data {
+	for mv, names := range c.names {
+		d = data.WithValue(d, metavarNamesKey(mv), names)
+	}
+	return d
+}
+
+// decide binds the metavariables that name imports: to the name that the
+// given match of the code has bound them to, if it has, and to the first of
+// their names otherwise.
+func (c importChoices) decide(match, d data.Data) (_ data.Data, ok bool) {
+	matchedImports := make([]importKey, 0, len(c.m.Imports))
+	for i, im := range c.m.Imports {
+		spec := c.specs[i][0]
+		if im.NameIsMetavar {
+			name := c.names[im.NameS][0]
+			var md metavarData
+			if match != nil && data.Lookup(match, metavarKey(im.NameS), &md) && md.Ident != "" {
+				name = md.Ident
+			}
+			spec = nil
+			for _, s := range c.specs[i] {
+				if im.importName(s) == name {
+					spec = s
 					break
 				}
 			}
+			if spec == nil {
+				return d, false
+			}
 		}
-		if len(next) == 0 {
-			return nil
+		if d, ok = im.matchSpec(spec, d); !ok {
+			return d, false
 		}
-		candidates = next
 		matchedImports = append(matchedImports, im.key())
 	}
+	return data.WithValue(d, importsKey, importsData{
+		MatchedImports: matchedImports,
+	}), true
+}
 
-	for i, d := range candidates {
-		candidates[i] = data.WithValue(d, importsKey, importsData{
-			MatchedImports: matchedImports,
-		})
+func containsString(ss []string, s string) bool {
+	for _, x := range ss {
+		if x == s {
+			return true
+		}
 	}
-	return candidates
+	return false
 }
 
 type _importsKey string
